@@ -8,6 +8,7 @@ End-to-end: non-seekable downloads through the manager under C02's fault
 sequences (see C02; the same oracle clauses are evaluated there and reported
 here through common.stream_download_e2e).
 """
+import sys
 import time
 
 from .. import harness, bfs
@@ -22,8 +23,28 @@ def obj_bytes(total):
     return bytes((i * 7 + 3) % 251 + 1 for i in range(total))
 
 
+class Chunk(bytes):
+    """a delivered chunk whose retention can be observed: the harness keeps every chunk it
+    delivered in a list; a chunk with more references than that list accounts for is still held
+    by the queue (bytes subclasses are never cached or interned by the interpreter)"""
+
+
+def _held(refs):
+    base = _BASE[0]
+    return sum(z for c, o, z in refs if sys.getrefcount(c) > base)
+
+
+def _calibrate():
+    refs = [(Chunk(b'xy'), 0, 2)]
+    return max(sys.getrefcount(c) for c, o, z in refs)
+
+
+_BASE = [None]
+
+
 class Model:
     def __init__(self, P, L):
+        self.refs = []                   # (chunk, offset, size) of every chunk delivered
         self.P, self.L = P, L
         self.pos = [0] * P
         self.restarts = [0] * P
@@ -36,13 +57,40 @@ class Model:
 
 
 def _impl_state(q):
-    try:
-        return (q._next_offset, tuple(sorted((o, len(d)) for o, d in q._writes)))
-    except AttributeError:
-        return None
+    """every instance attribute of the queue, normalised: two histories are merged only when the
+    whole implementation state agrees (an earlier version looked at two attributes only and merged
+    states whose duplicate-bookkeeping differed - they do not have the same futures)"""
+    out = []
+    for k, v in sorted(vars(q).items()):
+        if isinstance(v, (int, str, type(None))):
+            out.append((k, v))
+        elif isinstance(v, dict):
+            out.append((k, tuple(sorted((a, b if isinstance(b, int) else len(b)) for a, b in v.items()))))
+        elif isinstance(v, (list, tuple, set)):
+            out.append((k, tuple(sorted((e[0], len(e[1])) if isinstance(e, tuple) and len(e) == 2 and hasattr(e[1], '__len__')
+                                        else repr(e) for e in v))))
+        else:
+            out.append((k, repr(type(v))))
+    return tuple(out)
 
 
 def defer_bfs(P, L, sizes, max_restarts, depth, deadline, max_states=None):
+    make, ops_of, step, canon = _parts(P, L, sizes, max_restarts)
+    return bfs.bfs(make, ops_of, step, canon, depth, deadline=deadline, max_states=max_states)
+
+
+def run_history(P, L, history):
+    """one history on a fresh queue -> [(sig, msg)] of every clause (C16 and C11)"""
+    make, ops_of, step, canon = _parts(P, L, (1, 2, 3), 99)
+    impl, m = make()
+    out = []
+    for op in history:
+        obs, errors = step(impl, m, tuple(op))
+        out.extend(errors)
+    return out
+
+
+def _parts(P, L, sizes, max_restarts):
     total = P * L
     data = obj_bytes(total)
 
@@ -69,8 +117,23 @@ def defer_bfs(P, L, sizes, max_restarts, depth, deadline, max_states=None):
             return 'restart', errors
         _, p, sz = op
         off = p * L + m.pos[p]
-        chunk = data[off:off + sz]
+        chunk = Chunk(data[off:off + sz])
+        # C11 (memory): a chunk identical to (or contained in) one that is still waiting in the
+        # queue - same offset, not longer - is what a retried request delivers again; the queue
+        # must not hold on to the second copy
+        if _BASE[0] is None:
+            _BASE[0] = _calibrate()
+        held_before = _held(m.refs)
+        dup = off >= m.W and any(o == off and z >= sz and sys.getrefcount(c) > _BASE[0] for c, o, z in m.refs)
+        m.refs.append((chunk, off, sz))
         writes = impl.request_writes(off, chunk)
+        del chunk
+        held_after = _held(m.refs)
+        if dup and held_after > held_before:
+            errors.append(('C11:defer:duplicate-retained',
+                           f're-delivery of ({off},{sz}), identical to a chunk still waiting, raised the data held by the queue '
+                           f'from {held_before} to {held_after} bytes'))
+        m.max_held = max(getattr(m, 'max_held', 0), held_after)
         m.pos[p] += sz
         m.deliveries += 1
         for i in range(off, off + sz):
@@ -103,7 +166,7 @@ def defer_bfs(P, L, sizes, max_restarts, depth, deadline, max_states=None):
     def canon(impl, m):
         return (m.state(), _impl_state(impl))
 
-    return bfs.bfs(make, ops_of, step, canon, depth, deadline=deadline, max_states=max_states)
+    return make, ops_of, step, canon
 
 
 def replay(data):
@@ -160,6 +223,8 @@ def run(tier, seed):
             'frontier_exhausted': r.exhausted, 'caps_hit': r.caps_hit}
         samples.extend(r.samples[:1])
         for v in r.violations:
+            if not v['sig'].startswith('C16'):
+                continue          # the memory clause evaluated in the same search belongs to C11
             viol.append({'sig': v['sig'], 'msg': v['msg'] + f' P={P} L={L} history={v["history"]}',
                          'replay': {'kind': 'defer', 'P': P, 'L': L, 'history': v['history']}})
     e2e = common.stream_download_e2e(tier, seed)
